@@ -4,6 +4,9 @@ import (
 	"context"
 	"fmt"
 	"math/rand"
+	"os"
+	"runtime"
+	"strings"
 	"sync"
 	"sync/atomic"
 	"time"
@@ -271,6 +274,14 @@ func (s *steer) hook(name string, keys [][]byte) error {
 	return nil
 }
 
+// c04Stuck ends the process: the blocked goroutines cannot be recovered.
+var c04Stuck = func(run *evid.Run) {
+	if run.NumViolations() == 0 {
+		run.Inconclusive("concurrent requests did not complete within 90 s")
+	}
+	os.Exit(run.Finish())
+}
+
 type c04Stats struct {
 	histories, ops, overlaps, setAside, illegal, unknown int
 }
@@ -403,7 +414,20 @@ func c04History(run *evid.Run, r *rand.Rand, env *Env, l *learner, st *steer, h 
 	}
 	st.on.Store(true)
 	close(barrier)
-	wg.Wait()
+	finished := make(chan struct{})
+	go func() { wg.Wait(); close(finished) }()
+	select {
+	case <-finished:
+	case <-time.After(90 * time.Second):
+		// A history takes well under a second.  Requests that never come back have no outcome at all, which no
+		// one-at-a-time processing can produce - provided they are really stuck in lock acquisition.
+		buf := make([]byte, 1<<20)
+		dump := string(buf[:runtime.Stack(buf, true)])
+		if strings.Contains(dump, "locker/syncmap.(*Service).Lock") || strings.Contains(dump, "locker/syncmap.(*Service).PreLock") || strings.Contains(dump, "sync.(*Mutex).Lock") {
+			report(fmt.Sprintf("history %d: concurrent requests did not complete within 90 s and are blocked acquiring locks; processing them one at a time always completes", h), dump[:min(len(dump), 6000)])
+		}
+		c04Stuck(run)
+	}
 	st.on.Store(false)
 	// Final read of every key's stored state, appended as an operation after quiescence.  Over the wire the
 	// database is read once the daemon has stopped (the keys of a history are never used again).
@@ -655,6 +679,7 @@ func C04(cfg Cfg) int {
 func init() {
 	Children["C04race"] = func(cfg Cfg) int {
 		run := evid.New("C04race", cfg.Tier, cfg.Seed, "exploration")
+		c04Stuck = func(*evid.Run) { fmt.Println("RACE-CHILD operations 1"); os.Exit(4) }
 		stats := c04Workload(run, cfg, cfg.N(25, 300), func(w string, _ any) { fmt.Println("CHILD-VIOLATION " + w) })
 		fmt.Printf("RACE-CHILD operations %d\n", stats.ops)
 		fmt.Printf("RACE-CHILD overlaps %d\n", stats.overlaps)
